@@ -8,6 +8,7 @@ schema, written independently as a predicate, is the oracle.
 """
 import os
 import re
+import sys
 
 from vlib import fakeos, graphs, hrun
 from vlib.runner import Space, Canary, rewrite
@@ -135,6 +136,7 @@ RAISES = ["raise ValueError('{boom}')", "int('{')", "raise KeyError('{0}')", "ra
 
 def run_check(g, proj, D, expect_ok, want_in_err=("COND", ".cond"), cwd=None):
     import conductor.cli.run as cli_run
+    existing = set(n for n in os.listdir(proj.out) if ".task" in n) if proj.out.exists() else set()     # (made by earlier commands of a history)
     for check in (True, False):
         sched = graphs.SymSched(g, all_ok=True)
         kern = fakeos.Kernel(sched, clock=fakeos.Clock())
@@ -143,7 +145,7 @@ def run_check(g, proj, D, expect_ok, want_in_err=("COND", ".cond"), cwd=None):
         if isinstance(res.status, str):
             g.require(False, "schema:crash:" + res.status[4:], "%s: %s; %s" % (mode, res.exc, D))
         spawned = sorted(p.name for p in kern.tasks())
-        outdirs = [n for n in os.listdir(proj.out) if ".task" in n] if proj.out.exists() else []
+        outdirs = [n for n in os.listdir(proj.out) if ".task" in n and n not in existing] if proj.out.exists() else []
         if expect_ok:
             g.require(res.status == 0, "schema:valid-definition-rejected", "%s: status=%r error=%s err=%r; %s" % (mode, res.status, res.error_class, res.err[-200:], D))
         else:
@@ -252,6 +254,50 @@ def make(two_deviations=False):
     return fn
 
 
+EDITS = (
+    # (file edited, valid text, malformed text of the SAME length)
+    ("COND", "run_command(name='x', run='true', deps=[])\n", "run_command(name='x', run='true', deps=\"\")\n"),
+    ("COND", "run_command(name='x', run='true')\nA = 8/1\n", "run_command(name='x', run='true')\nA = 8/0\n"),
+    ("inc.cond", "ARGS = [1, 22]\n", "ARGS = [1, {}]\n"),
+    ("inc.cond", "Y = 10/5\n", "Y = 10/0\n"),
+)
+
+
+def edit_fn(g):
+    """A history of two commands with an edit in between: the second command must judge the file as it is NOW, even if the
+    edit kept the file's size and modification time (scripted edit within one second, clock standing still, `cp -p`)."""
+    which, good, bad = EDITS[g.choose("edit", len(EDITS))]
+    keep_mtime = g.flag("edit_keeps_size_and_mtime")
+    first = ("run --check", "run")[g.choose("first_command", 2)]
+    assert len(good) == len(bad)
+    proj = hrun.Project()
+    old_dwb = sys.dont_write_bytecode
+    sys.dont_write_bytecode = False          # Python's default (this sandbox exports PYTHONDONTWRITEBYTECODE=1)
+    try:
+        if which == "COND":
+            proj.write("COND", good)
+        else:
+            proj.write("COND", "include('inc.cond')\nrun_command(name='x', run='true', args=globals().get('ARGS', []))\n")
+            proj.write("inc.cond", good)
+        import conductor.cli.run as cli_run
+        D = "valid %s, `cond %s`, then %s replaced by malformed text of the same length (%s), second command" % (
+            which, first, which, "same mtime" if keep_mtime else "new mtime")
+        kern = fakeos.Kernel(graphs.SymSched(g, all_ok=True), clock=fakeos.Clock())
+        r1 = hrun.invoke(cli_run.main, hrun.run_ns(task_identifier="//:x", check=(first == "run --check")), str(proj.root), kern)
+        g.require(r1.status == 0, "schema:valid-definition-rejected", "first command: status=%r err=%r; %s" % (r1.status, r1.err[-200:], D))
+        path = proj.root / which
+        st = os.stat(path)
+        path.write_text(bad)
+        if keep_mtime:
+            os.utime(path, ns=(st.st_atime_ns, st.st_mtime_ns))
+        run_check(g, proj, D, False)
+        g.goal("file edited between two commands")
+        return {"nontrivial": True, "sample": {"case": D}}
+    finally:
+        sys.dont_write_bytecode = old_dwb
+        proj.cleanup()
+
+
 def scale_fn(g):
     """Large but well-formed definitions (must be accepted) and a malformed element far into a long list (must be rejected cleanly)."""
     shape = ("300-tasks-in-one-file", "task-with-150-deps", "200-args-and-options", "bad-dep-at-position-140", "bad-arg-at-position-180",
@@ -295,6 +341,9 @@ def scale_fn(g):
 
 def spaces(tier):
     goals = ["accepted definition", "rejected definition", "include variant", "COND body raising a Python error"]
+    extra = [Space("edit-between-two-commands", edit_fn, "4 edits (valid -> malformed text of the same length, in the COND file or an included "
+                   "file) x {new mtime, same size and mtime} x first command {run --check, run}; bytecode writing enabled", depth=4,
+                   goals=["file edited between two commands"])]
     sp = [Space("one-deviation", make(False), "4 constructors x (each parameter x (absent | %d pool values) | extraneous | positional | "
                 "duplicate name), %d include variants, %d raising bodies x {COND, included file}; run --check and run" % (len(POOL), len(INCLUDES), len(RAISES)),
                 depth=4, goals=goals, outside=["BaseException from user code", "more than two deviations"])]
@@ -302,7 +351,7 @@ def spaces(tier):
                     "value - accepted - and the same with one malformed element far into the list / a duplicate name at the end - rejected cleanly",
                     depth=2, goals=["definition with hundreds of elements"]))
     sp.append(Space("two-deviations", make(True), "as above with up to two simultaneous deviations", depth=5))
-    return sp
+    return sp + extra
 
 
 class regenerate_validators:
